@@ -100,6 +100,17 @@ func PropC03(c *vs.Case, f Factory, kind string) error {
 				}
 			}
 		}
+		if c.Prob(1, 5) {
+			// the parent starts deleting (held by a foreign finalizer): a dying parent neither adopts nor releases
+			env.W.Sim.ExtUpdate(scn.Cfg.ParentResource, scn.ParentNS(), scn.ParentName(), func(o map[string]any) {
+				m := o["metadata"].(map[string]any)
+				fs, _ := m["finalizers"].([]any)
+				m["finalizers"] = append(fs, "example.com/hold")
+			})
+			env.W.Sim.ExtDelete(scn.Cfg.ParentResource, scn.ParentNS(), scn.ParentName(), "")
+			env.W.SyncCache(scn.Cfg.ParentResource)
+			c.Class("parent-deleting")
+		}
 		parentCached := env.W.CachedObject(scn.Cfg.ParentResource, scn.ParentNS(), scn.ParentName())
 		t := env.Sync()
 		if t.Panic != "" {
